@@ -79,6 +79,17 @@ def gen_inputs(ctx):
                 for _ in range(rng.randrange(1, 4))]
         last = rq(app, rng.choice(vals), rng.choice([0, 1, 12, 20, 21, 24, 32]), rng.choice(["pos", "kw-all", "kw-reversed", "index-only", "param-only"]))
         out.append(("Bip85", dict(last, master=rng.choice(masters), history=hist), ("spellings-random-history", app)))
+    # the BIP85 master is a node derived in this process from another node (it has a parent object)
+    from .. import refwallet as W2
+    for app, p_ in (("mnemonic", 12), ("wif", 0), ("xprv", 0), ("hex", 32), ("pwd", 21)) if not q else (("wif", 0), ("hex", 32)):
+        root_ = masters[0]
+        ci = rng.choice([0, 2 ** 31 + 3, 7])
+        tabd = R.Table()
+        rr = W2.RNode(bytes(root_["k"]), R.pubkey(int.from_bytes(bytes(root_["k"]), "big")), bytes(root_["c"]), 0, 0, bytes(4), "main")
+        ch = W2.ckd(tabd, rr, ci)
+        child = {"prv": True, "k": B(ch.k), "c": B(ch.c), "depth": 1, "idx": idx4(ci), "pfp": B(ch.pfp), "net": "main"}
+        out.append(("Bip85", {"master": child, "derived_from": {"root": root_, "i": idx4(ci)}, "app": app, "p": p_, "ix": ix(1)},
+                    ("master-is-a-derived-node", app)))
     # capacity: a request, then more than a thousand distinct other requests on the same object, then the request again
     for app, p_, i_ in (("hex", 16, 0), ("wif", 0, 0), ("mnemonic", 12, 1)) if not q else (("hex", 16, 0),):
         out.append(("Bip85", dict(rq(app, p_, i_, "kw-all"), master=masters[0], history=[rq(app, p_, i_, "kw-all")], bulk=1100 if q else 4400),
